@@ -3,28 +3,27 @@
 
   `execImpl` = LiteralEvaluator.exec on tranp's node tree (flat operator chains, strings with their quotes),
   `evalPy`   = CPython on CPython's grouping of the same tokens (`toPy`), `float` abstract (`FloatOps F`, any interpretation).
-  Guards (each a switch of `Mode`; `Mode.py` = CPython itself, a switch set = that region raises `excluded` / is computed naively):
-    H1 naiveDiv    int / int is float(a) / float(b)            H4 lowerHex   no `0X…` literal
-    H2 plainStr    string tokens are plain '…' / "…"           H5a arityLe1  casts have at most one argument
-    H3 noStrOfStr  str() is not applied to a string            H5b arityGe1  casts have at least one argument
-  A guard "holds for e" when CPython's own result on e equals the result of the guarded mode (`hscope` below): the cut-out
-  region is not entered before the first exception. Helper lemmas: Tranp/Lemmas/Evaluator.lean.
+
+  State after the repairs c8f7860 (str() un-quotes), 8fac22f (triple-quoted / prefixed tokens refused), e338962 (int / int on the
+  ints), b7e37da (casts take exactly one argument): agreement needs NO guard any more. Two boundaries are left:
+    * H4 `lowerHex` — a `0X…` literal is a number in CPython and a wrapped ValueError in the folder (`startswith('0x')`): an application
+      error, allowed by the property, but the reason `refuse` carries a guard (`upperhex_counterexample`);
+    * string tokens with a backslash are outside `evalPy` (`classifyStr … = other`, answer `unsupported`): `_cat` joins token TEXTS,
+      which does not commute with decoding escapes (`escape_counterexample`; known finding `escape-merge-concat`).
+  Helper lemmas: Tranp/Lemmas/Evaluator.lean.
 -/
 import Tranp.Lemmas.Evaluator
 
 namespace Tranp.C17
 open Tranp Tranp.Evaluator
 
-/-- the guards agreement needs: H1, H2, H3, H5a -/
-def agreeMode : Mode := ⟨true, true, true, false, true, false⟩
-
-/-- If CPython (regions H1–H5 cut out) evaluates `e` to `v'`, the folder returns a value of the same type and content, or
+/-- If CPython evaluates `e` to `v'` (no `0X…` literal on the way), the folder returns a value of the same type and content, or
     refuses (an application error that is not a wrapped Python exception, or the recursion limit): for every expression,
     environment, fuel and every interpretation of `float`. -/
 theorem sound {F : Type} (ops : FloatOps F) (env : Env) (fuel : Nat) (e : Expr) (venv : VEnv F) (v' : V F)
     (hc : Cons .strict ops env venv) (hp : evalPy .strict ops env.known venv (toPy e) = .ok v') :
     (∃ v, execImpl ops env fuel e = .ok v ∧ Sim v v') ∨ (∃ er, execImpl ops env fuel e = .error er ∧ Refusal er) := by
-  have h := sound_core .strict ops env Refusal rfl rfl rfl rfl (fun _ h => h) (by intro h; cases h) (by intro h; cases h) fuel e venv v' hc hp
+  have h := sound_core .strict ops env Refusal (fun _ h => h) (by intro h; cases h) fuel e venv v' hc hp
   cases hx : execImpl ops env fuel e with
   | ok v => rw [hx] at h; exact Or.inl ⟨v, rfl, h⟩
   | error er => rw [hx] at h; exact Or.inr ⟨er, rfl, h⟩
@@ -38,15 +37,12 @@ example :
     ∧ execImpl freeOps ⟨[], []⟩ 9 e = .ok (.float (.mul (.sub (.ofInt 32) (.parse ['1','.','5'])) (.ofInt 2))) := by
   decide
 
-/-- **agree**: a value of the folder and a value of CPython are the same value of the same type (strings by content),
-    whenever `e` stays inside the guards H1, H2, H3, H5a (`hscope`: CPython's own result is the guarded result). -/
-theorem agree {F : Type} (ops : FloatOps F) (env : Env) (fuel : Nat) (e : Expr) (venvPy venvG : VEnv F) (v v' : V F)
-    (hc : Cons agreeMode ops env venvG)
-    (hscope : evalPy .py ops env.known venvPy (toPy e) = evalPy agreeMode ops env.known venvG (toPy e))
-    (hi : execImpl ops env fuel e = .ok v) (hp : evalPy .py ops env.known venvPy (toPy e) = .ok v') : Sim v v' := by
-  rw [hscope] at hp
-  have h := sound_core agreeMode ops env (fun _ => True) rfl rfl rfl rfl (fun _ _ => trivial) (fun _ => trivial) (fun _ => trivial)
-    fuel e venvG v' hc hp
+/-- **agree** (no guard): a value of the folder and a value of CPython are the same value of the same type (strings by
+    content) — for every expression, environment, fuel and interpretation of `float`. -/
+theorem agree {F : Type} (ops : FloatOps F) (env : Env) (fuel : Nat) (e : Expr) (venv : VEnv F) (v v' : V F)
+    (hc : Cons .py ops env venv)
+    (hi : execImpl ops env fuel e = .ok v) (hp : evalPy .py ops env.known venv (toPy e) = .ok v') : Sim v v' := by
+  have h := sound_core .py ops env (fun _ => True) (fun _ _ => trivial) (fun _ => trivial) fuel e venv v' hc hp
   rw [hi] at h
   exact h
 
@@ -55,15 +51,14 @@ example :
     let a : Expr := .chain ['o','n','_','t','e','r','m'] (.integer ['7']) [(['%'], .factor ['-'] (.integer ['3']))]
     let b : Expr := .chain ['o','n','_','s','u','m'] (.call ['s','t','r'] [.var ['A'] none]) [(['+'], .string ['\'','.','\'']), (['+'], .string ['"','5','"'])]
     let env : Env := ⟨[(['A'], a), (['B'], b)], [['s','t','r']]⟩
-    let venv := bindAll agreeMode freeOps env.known [] [(['A'], a)]
-    bindAll .py freeOps env.known [] [(['A'], a)] = venv
-    ∧ evalPy .py freeOps env.known venv (toPy b) = evalPy agreeMode freeOps env.known venv (toPy b)
-    ∧ execImpl freeOps env 9 b = .ok (.str ['"','-','2','.','5','"'])
+    let venv := bindAll .py freeOps env.known [] [(['A'], a)]
+    execImpl freeOps env 9 b = .ok (.str ['"','-','2','.','5','"'])
     ∧ evalPy .py freeOps env.known venv (toPy b) = .ok (.str ['-','2','.','5']) := by
   decide
 
 /-- **refuse**: when the folder fails, it refuses (OperationNotAllowed, UnresolvedSymbol, an error of type inference, the
-    recursion limit) or CPython raises on `e` as well — inside all guards H1–H5. With `sound`: a different value is never produced. -/
+    recursion limit) or CPython raises on `e` as well — as long as no `0X…` literal is evaluated (`hscope`: CPython's own result is
+    the result with that region cut out). With `sound`/`agree`: a different value is never produced. -/
 theorem refuse {F : Type} (ops : FloatOps F) (env : Env) (fuel : Nat) (e : Expr) (venvPy venvG : VEnv F) (er : Err)
     (hc : Cons .strict ops env venvG)
     (hscope : evalPy .py ops env.known venvPy (toPy e) = evalPy .strict ops env.known venvG (toPy e))
@@ -73,17 +68,34 @@ theorem refuse {F : Type} (ops : FloatOps F) (env : Env) (fuel : Nat) (e : Expr)
   | error y => exact Or.inr ⟨y, rfl⟩
   | ok v' =>
     rw [hscope] at hp
-    have h := sound_core .strict ops env Refusal rfl rfl rfl rfl (fun _ h => h) (by intro h; cases h) (by intro h; cases h) fuel e venvG v' hc hp
+    have h := sound_core .strict ops env Refusal (fun _ h => h) (by intro h; cases h) fuel e venvG v' hc hp
     rw [hi] at h
     exact Or.inl h
 
-/-- non-vacuity of `refuse`: `1 % 0` fails on both sides, `'a' * 2` is refused although CPython evaluates it. -/
+/-- non-vacuity of `refuse`: `1 % 0` fails on both sides; `'a' * 2`, `'''a''' + 'b'`, `int()`, `int('12', 16)` are refused
+    although CPython evaluates them. -/
 example :
     let e1 : Expr := .chain ['o','n','_','t','e','r','m'] (.integer ['1']) [(['%'], .integer ['0'])]
     let e2 : Expr := .chain ['o','n','_','t','e','r','m'] (.string ['\'','a','\'']) [(['*'], .integer ['2'])]
-    execImpl freeOps ⟨[], []⟩ 9 e1 = .error (.fatal .zeroDivision) ∧ evalPy .py freeOps [] [] (toPy e1) = .error .zeroDivision
-    ∧ evalPy .py freeOps [] [] (toPy e1) = evalPy .strict freeOps [] [] (toPy e1)
-    ∧ execImpl freeOps ⟨[], []⟩ 9 e2 = .error .notAllowed ∧ evalPy .py freeOps [] [] (toPy e2) = .ok (.str ['a', 'a']) := by
+    let e3 : Expr := .chain ['o','n','_','s','u','m'] (.string ['\'','\'','\'','a','\'','\'','\'']) [(['+'], .string ['\'','b','\''])]
+    let e4 : Expr := .call ['i','n','t'] []
+    let e5 : Expr := .call ['i','n','t'] [.string ['\'','1','2','\''], .integer ['1','6']]
+    let env : Env := ⟨[], [['i','n','t']]⟩
+    execImpl freeOps env 9 e1 = .error (.fatal .zeroDivision) ∧ evalPy .py freeOps env.known [] (toPy e1) = .error .zeroDivision
+    ∧ evalPy .py freeOps env.known [] (toPy e1) = evalPy .strict freeOps env.known [] (toPy e1)
+    ∧ execImpl freeOps env 9 e2 = .error .notAllowed ∧ evalPy .py freeOps env.known [] (toPy e2) = .ok (.str ['a', 'a'])
+    ∧ execImpl freeOps env 9 e3 = .error .notAllowed ∧ evalPy .py freeOps env.known [] (toPy e3) = .ok (.str ['a', 'b'])
+    ∧ execImpl freeOps env 9 e4 = .error .notAllowed ∧ evalPy .py freeOps env.known [] (toPy e4) = .ok (.int 0)
+    ∧ execImpl freeOps env 9 e5 = .error .notAllowed ∧ evalPy .py freeOps env.known [] (toPy e5) = .ok (.int 18) := by
+  decide
+
+/-- regression of the repaired defects (former counterexample witnesses): `str('x')` is `"x"`, `18014398509481985 / 3` is
+    CPython's own true division of the two ints. -/
+example :
+    execImpl freeOps ⟨[], [['s','t','r']]⟩ 5 (.call ['s','t','r'] [.string ['\'','x','\'']]) = .ok (.str ['"','x','"'])
+    ∧ execImpl freeOps ⟨[], []⟩ 5
+        (.chain ['o','n','_','t','e','r','m'] (.integer ['1','8','0','1','4','3','9','8','5','0','9','4','8','1','9','8','5']) [(['/'], .integer ['3'])])
+      = .ok (.float (.truediv 18014398509481985 3)) := by
   decide
 
 /-- **chain**: CPython's left-nested tree for a flat chain `first op₁ e₁ op₂ e₂ …` evaluates like the left fold over the chain
@@ -113,62 +125,20 @@ theorem consistent_bindAll {F : Type} (m : Mode) (ops : FloatOps F) (env : Env)
 
 example : ([(['A'], Expr.integer ['1']), (['B'], Expr.var ['A'] none)].map Prod.fst).Nodup := by decide
 
-/-! ## the guards are necessary -/
+/-! ## the two boundaries that are left -/
 
-/-- agreement under the guards of `m` only -/
-def agreeUnder (m : Mode) : Prop :=
-  ∀ (ops : FloatOps FTerm) (env : Env) (fuel : Nat) (e : Expr) (venv : VEnv FTerm) (v v' : V FTerm),
-    Cons m ops env venv → execImpl ops env fuel e = .ok v → evalPy m ops env.known venv (toPy e) = .ok v' → Sim v v'
-
-/-- the property as stated, without any guard -/
-def agree_unguarded_statement : Prop := agreeUnder .py
-
-/-- H3 is necessary: `str('x')` folds to `"'x'"` — content `'x'` with the quotes — where CPython gives `x`. -/
-theorem strcast_counterexample : ¬ agreeUnder { Mode.strict with noStrOfStr := false } := by
-  intro h
-  have := h freeOps ⟨[], [['s','t','r']]⟩ 5 (.call ['s','t','r'] [.string ['\'','x','\'']]) []
-    (.str ['"','\'','x','\'','"']) (.str ['x']) Cons.nil (by decide) (by decide)
-  exact not_sim_str (by decide) this
-
-/-- the unguarded statement is false on the current code (same witness) -/
-theorem agree_unguarded_counterexample : ¬ agree_unguarded_statement := by
-  intro h
-  have := h freeOps ⟨[], [['s','t','r']]⟩ 5 (.call ['s','t','r'] [.string ['\'','x','\'']]) []
-    (.str ['"','\'','x','\'','"']) (.str ['x']) Cons.nil (by decide) (by decide)
-  exact not_sim_str (by decide) this
-
-/-- H2 is necessary: `'''a''' + 'b'` folds to `'''a''b'` (content `''a''b`), CPython gives `ab`. -/
-theorem triple_counterexample : ¬ agreeUnder { Mode.strict with plainStr := false } := by
-  intro h
-  have := h freeOps ⟨[], []⟩ 5
-    (.chain ['o','n','_','s','u','m'] (.string ['\'','\'','\'','a','\'','\'','\'']) [(['+'], .string ['\'','b','\''])]) []
-    (.str ['\'','\'','\'','a','\'','\'','b','\'']) (.str ['a','b']) Cons.nil (by decide) (by decide)
-  exact not_sim_str (by decide) this
-
-/-- H1 is necessary: in an interpretation where `a / b` on ints is not `float(a) / float(b)` (CPython rounds the exact
-    quotient once; the free term algebra keeps the two apart) `18014398509481985 / 3` differs. -/
-theorem truediv_counterexample : ¬ agreeUnder { Mode.strict with naiveDiv := false } := by
-  intro h
-  have := h freeOps ⟨[], []⟩ 5
-    (.chain ['o','n','_','t','e','r','m'] (.integer ['1','8','0','1','4','3','9','8','5','0','9','4','8','1','9','8','5']) [(['/'], .integer ['3'])]) []
-    (.float (.div (.ofInt 18014398509481985) (.ofInt 3))) (.float (.truediv 18014398509481985 3)) Cons.nil (by decide) (by decide)
-  cases this
-
-/-- H5a is necessary: `int('12', 16)` folds to 12 (only `arguments[0]` is read), CPython gives 18. -/
-theorem arity_counterexample : ¬ agreeUnder { Mode.strict with arityLe1 := false } := by
-  intro h
-  have := h freeOps ⟨[], [['i','n','t']]⟩ 5 (.call ['i','n','t'] [.string ['\'','1','2','\''], .integer ['1','6']]) []
-    (.int 12) (.int 18) Cons.nil (by decide) (by decide)
-  cases this
-
-/-- "CPython has a value ⇒ the folder has that value or refuses", under the guards of `m` only -/
+/-- "CPython has a value ⇒ the folder has that value or refuses", with the region of `m` cut out -/
 def soundUnder (m : Mode) : Prop :=
   ∀ (ops : FloatOps FTerm) (env : Env) (fuel : Nat) (e : Expr) (venv : VEnv FTerm) (v' : V FTerm),
     Cons m ops env venv → evalPy m ops env.known venv (toPy e) = .ok v' →
     (∃ v, execImpl ops env fuel e = .ok v ∧ Sim v v') ∨ (∃ er, execImpl ops env fuel e = .error er ∧ Refusal er)
 
-/-- H4 is necessary for `refuse`: `0X1F` is 31 in CPython, the folder raises a wrapped ValueError (`startswith('0x')`). -/
-theorem upperhex_counterexample : ¬ soundUnder { Mode.strict with lowerHex := false } := by
+/-- `sound` / `refuse` without the guard H4 -/
+def sound_unguarded_statement : Prop := soundUnder .py
+
+/-- H4 is necessary for `sound` and `refuse`: `0X1F` is 31 in CPython, the folder raises a wrapped ValueError
+    (an application error — the property itself is not violated). -/
+theorem upperhex_counterexample : ¬ sound_unguarded_statement := by
   intro h
   have := h freeOps ⟨[], []⟩ 5 (.integer ['0','X','1','F']) [] (.int 31) Cons.nil (by decide)
   have hx : execImpl freeOps ⟨[], []⟩ 5 (.integer ['0','X','1','F']) = .error (.fatal .valueError) := by decide
@@ -177,14 +147,16 @@ theorem upperhex_counterexample : ¬ soundUnder { Mode.strict with lowerHex := f
   · cases h1
   · cases h1; cases h2
 
-/-- H5b is necessary for `refuse`: `int()` is 0 in CPython, the folder raises a wrapped IndexError (`arguments[0]`). -/
-theorem noarg_counterexample : ¬ soundUnder { Mode.strict with arityGe1 := false } := by
+/-- the law `_cat` would need for tokens with escapes: decoding the joined bodies = joining the decoded bodies -/
+def cat_commutes_with_decoding_statement : Prop :=
+  ∀ l r : Str, allowString l = true → allowString r = true → decodeOct (unq (cat l r)) = decodeOct (unq l) ++ decodeOct (unq r)
+
+/-- … is false (known finding `escape-merge-concat`): `'\1' + '2'` joins to the body `\12`, one character (newline), where
+    CPython has the two characters `\x01` `2`. This is why string tokens with a backslash are outside `evalPy`. -/
+theorem escape_counterexample : ¬ cat_commutes_with_decoding_statement := by
   intro h
-  have := h freeOps ⟨[], [['i','n','t']]⟩ 5 (.call ['i','n','t'] []) [] (.int 0) Cons.nil (by decide)
-  have hx : execImpl freeOps ⟨[], [['i','n','t']]⟩ 5 (.call ['i','n','t'] []) = .error (.fatal .indexError) := by decide
-  rw [hx] at this
-  rcases this with ⟨v, h1, _⟩ | ⟨er, h1, h2⟩
-  · cases h1
-  · cases h1; cases h2
+  have := h ['\'','\\','1','\''] ['\'','2','\''] (by decide) (by decide)
+  revert this
+  decide
 
 end Tranp.C17
